@@ -120,8 +120,9 @@ class _Resolver:
 def make_blob(spec: dict, rks: t.Sequence[cms.RootKey], salt: int) -> t.Tuple[bytes, bytes]:
     """Reference-made blob for an unprotect operation -> (blob, plaintext)."""
     rk = rks[spec["rk"]]
+    salt = spec.get("salt", salt)
     pt = data_bytes(spec.get("data", 24), salt)
-    h = hashlib.sha512(b"blob/%d/" % salt + repr(sorted(spec.items())).encode()).digest()
+    h = hashlib.sha512(b"blob/%d/" % salt + repr(sorted((k, v) for k, v in spec.items() if k != "faults")).encode()).digest()
     pub = spec.get("mode", "nonce") == "pub"
     if pub:
         n = (rk.private_key_length + 7) // 8
@@ -134,6 +135,10 @@ def make_blob(spec: dict, rks: t.Sequence[cms.RootKey], salt: int) -> t.Tuple[by
     blob = cms.protect(pt, spec["sid"], rk, tuple(spec["pos"]), cek=hashlib.sha256(h).digest(), gcm_nonce=h[32:44], key_info_seed=seedb,
                        public_key_mode=pub, in_envelope=not spec.get("trailing", False),
                        domain=spec.get("domain", "domain.test"), forest=spec.get("forest", "domain.test"))
+    if spec.get("faults"):  # the stored record was damaged / altered at rest
+        from simworld import blobstore
+
+        blob = blobstore.apply_faults(blob, spec["faults"], cms.parse_blob(blob)["offsets"])
     return blob, pt
 
 
